@@ -77,7 +77,10 @@ static void fs_start(void) {
   }
   close(c[0]); close(s[1]); fs_ctl = c[1]; fs_st = s[0];
   char rdy[4]; struct pollfd p = { fs_st, POLLIN, 0 };
-  if (poll(&p, 1, 60000) <= 0 || read(fs_st, rdy, 4) != 4 || memcmp(rdy, "RDY!", 4)) { errno = 0; die("fork server did not come up"); }
+  if (poll(&p, 1, 60000) <= 0 || read(fs_st, rdy, 4) != 4 || memcmp(rdy, "RDY!", 4)) {
+    int st = 0; pid_t w = waitpid(fs_pid, &st, WNOHANG);
+    fprintf(stderr, "runmany: fork server for %s: waitpid=%d status=0x%x\n", exe, (int)w, st);
+    errno = 0; die("fork server did not come up"); }
 }
 
 static void fs_stop(void) {
